@@ -122,7 +122,17 @@ def finders(ctx, P):
     rng = re.escape(show(sites(f, mcall_named("Chainstate::GetPruneRange"), P)[0].expr))
     atoms = {"NONEMPTY": re.compile(info + r"\.nSize"), "ABOVE": re.compile(r"bind1\(%s\) < %s\.nHeightLast" % (rng, info)),
              "BELOW": re.compile(r"%s\.nHeightFirst < bind0\(%s\)" % (info, rng)),
-             "UNDER": re.compile(r"(nBuffer \+ nCurrentUsage|nCurrentUsage \+ nBuffer) < target")}
+             "UNDER": lambda k_: k_ in under}
+    # the stop test is the negation of the test that started the scan: `usage + buffer < target` (names are free)
+    outer = [g for g in ps[0].guards if (g.line or 0) < lo and g.kind == "if"]
+    under = set()
+    for g in outer:
+        gf = g.formula(sub)
+        for a_ in F.atoms(gf):
+            if re.fullmatch(r".+ \+ .+ < .+", a_) and F.implies(gf, F.mk_not(F.atom(a_))):
+                under.add(a_)
+    if not under:
+        raise AnalysisBroken("FindFilesToPrune: the usage-vs-target test enclosing the scan was not recognised")
     nb = 0
     for s in stmt_sites(f, lambda st: st.get("k") in ("break", "continue", "ret", "throw"), P):
         if not (lo <= (s.line or 0) <= hi):
@@ -142,7 +152,7 @@ def finders(ctx, P):
     ok = lp.get("k") == "for" and match(["b", "<", ["local", ANY], ["mcall", BM + "MaxBlockfileNum"]], lp.get("c")) and \
         is_expr((lp.get("init") or {}).get("i")) and match(["int", 0], lp["init"]["i"])
     ctx.ob("FindFilesToPrune/scan-range", "LADDER", "the automatic prune scan visits every block file number from 0 up to MaxBlockfileNum()", ok, "%s:%s" % (f.file, lo))
-    acc = sites(f, lambda e: match(["b", "-=", ["local", "nCurrentUsage"]], e), P)
+    acc = sites(f, lambda e: match(["b", "-=", ["local", ANY]], e) and any(re.search(r"\b%s\b" % re.escape(e[2][1]), u_) for u_ in under), P)
     ok = len(acc) == 1 and lo <= acc[0].line <= hi and acc[0].line > ps[0].line
     ctx.ob("FindFilesToPrune/usage-accounting", "LADDER", "the usage compared with the target is reduced for each file pruned (so the stop test sees the freed space)", ok, f.where)
     # start-up sweep: only files already marked empty
